@@ -15,12 +15,13 @@ import re
 from ..runner import Result, CheckError
 from .. import absint_run, rules, flow
 from ..rules import param_by_name, term_of_operand, term_str, callee_name, path_conditions, cond_true, cond_false
+from ..flow import term_contains
 from .common import ctx, short_site
 
 PID = 'C04'
 
 ENTRY_PAT = re.compile(r'^lorawan_device::(mac::Mac::|mac::session::Session::|mac::otaa::Otaa::|mac::uplink::Uplink::|region::Configuration::|radio::RadioBuffer::|'
-                       r'radio::TxConfig::|mac::RxWindows::|mac::del_to_delay_ms|nb_device::state::|nb_device::Device::)')
+                       r'radio::TxConfig::|mac::RxWindows::|mac::del_to_delay_ms|nb_device::state::|nb_device::Device::|async_device::Device::)')
 
 # (regex over "<fn>:<kind>:<desc>", class, reason)
 TABLE = [
@@ -37,6 +38,11 @@ TABLE = [
     (r'nb_device::state::(WaitingForRx|WaitingForRxWindow)::handle_event:overflow:(Add|Sub)', 'radio',
      'millisecond timestamps / window durations supplied by the radio and timer (u32 arithmetic on board time)'),
     (r'nb_device::state::data_rxwindow1_timeout:overflow:Add', 'radio', 'TxDone timestamp + delay in i32: board time supplied by the radio'),
+    (r'async_device::Device::rx_downlink::\{closure#0\}:overflow:(Add|Sub)', 'radio',
+     'RX window start = MAC delay + the TxDone time returned by PhyRxTx::tx - Timings::get_rx_window_lead_time_ms (board/radio supplied u32 milliseconds)'),
+    (r'From<lorawan_device::mac::Response> for lorawan_device::async_device::(Join|Send)Response>::from:panic:', 'undecided:result-state-correlation',
+     'NOT DECIDED: the panicking arm is unreachable only because Mac.state is Joined after Mac::send returned Ok (Otaa until JoinSuccess during join) and '
+     'NoUpdate is filtered by handle_mac_response; the correlation between a Result variant and Mac.state is not expressible in the abstract domain'),
     (r'TxConfig::adjust_power:overflow:Sub', 'application', 'antenna gain and maximum power are board constants chosen by the integrator (i8 subtraction of region power <= 30 and gain)'),
     # ---- invariants (see the flow rules below)
     (r'RegionHandler>::select_tx_channel:(bounds:index|unwrap:Option::unwrap)', 'invariant:data_rate-defined',
@@ -62,7 +68,78 @@ TABLE = [
 ]
 
 
+# the radio and the timer are the environment of this property: calls through these traits return arbitrary values
+# (and may write whatever they get `&mut`); the workspace implementation of the radio side is C14/C18's subject
+BOUNDARY = {'lorawan_device::async_device::radio::PhyRxTx', 'lorawan_device::async_device::radio::Timer', 'lorawan_device::nb_device::radio::PhyRxTx'}
+
+# reviewed number of undischarged sites per (function, kind, description): frozen from the tree the table was reviewed on
+GROUP_LIMITS = {
+    '<dyn::DynamicChannelPlan<R> as RegionHandler>::select_tx_channel:bounds:index': 2,
+    '<dyn::DynamicChannelPlan<R> as RegionHandler>::select_tx_channel:unwrap:Option::unwrap': 3,
+    '<dyn::as923::AS923Region<DEFAULT_RX2, OFFSET> as dyn::DynamicChannelRegion>::get_rx_datarate:overflow:Add': 1,
+    '<dyn::as923::AS923Region<DEFAULT_RX2, OFFSET> as dyn::DynamicChannelRegion>::init_channels:overflow:Sub': 1,
+    '<dyn::in865::IN865Region as dyn::DynamicChannelRegion>::get_rx_datarate:overflow:Add': 1,
+    '<fix::FixedChannelPlan<F> as RegionHandler>::channel_dl_update:panic:explicit cratepanicunreachable_!': 1,
+    '<fix::FixedChannelPlan<F> as RegionHandler>::channel_mask_validate:bounds:index': 1,
+    '<fix::FixedChannelPlan<F> as RegionHandler>::handle_new_channel:panic:explicit cratepanicunreachable_!': 1,
+    '<fix::FixedChannelPlan<F> as RegionHandler>::select_tx_channel:bounds:index': 2,
+    '<fix::FixedChannelPlan<F> as RegionHandler>::select_tx_channel:unwrap:Option::unwrap': 2,
+    '<fix::au915::AU915Region as fix::FixedChannelRegion>::get_rx_datarate:overflow:Sub': 1,
+    '<fix::us915::US915Region as fix::FixedChannelRegion>::get_rx_datarate:overflow:Sub': 2,
+    'Configuration::create_tx_config:unwrap:Option::unwrap': 1,
+    'async_device::Device::rx_downlink::{closure#0}:overflow:Add': 2,
+    'async_device::Device::rx_downlink::{closure#0}:overflow:Sub': 2,
+    'dyn::DynamicChannelPlan::get_random_in_range:unwrap:Option::unwrap': 1,
+    'fix::join_channels::AvailableChannels::get_next_channel_inner:overflow:Add': 2,
+    'fix::join_channels::JoinChannels::get_next_channel:overflow:Add': 2,
+    'lorawan::default_crypto::calculate_mic:slice:range index': 1,
+    'lorawan::default_crypto::calculate_mic:unwrap:Result::unwrap': 1,
+    'mac::<impl core::convert::From<mac::Response> for async_device::JoinResponse>::from:panic:explicit cratepanicpanic_!': 1,
+    'mac::<impl core::convert::From<mac::Response> for async_device::SendResponse>::from:panic:explicit cratepanicpanic_!': 1,
+    'mac::Mac::build_rf_config:unwrap:Option::unwrap': 1,
+    'mac::Mac::get_rx_delay:overflow:Add': 1,
+    'mac::otaa::Otaa::prepare_buffer:unwrap:Result::unwrap': 1,
+    'mac::session::Session::handle_downlink_macs:overflow:Add': 1,
+    'mac::session::Session::handle_rx:unwrap:Result::unwrap': 1,
+    'mac::session::Session::prepare_buffer:panic:explicit cratepanicpanic_!': 2,
+    'mac::session::Session::prepare_buffer:unwrap:Result::unwrap': 1,
+    'mac::uplink::Uplink::add_mac_command:overflow:Add': 1,
+    'mac::uplink::Uplink::add_mac_command:unwrap:Result::unwrap': 1,
+    'mac::uplink::Uplink::clear_mac_commands::{closure#1}:unwrap:Result::unwrap': 1,
+    'nb_device::state::SendingData::handle_event:panic:explicit cratepanicpanic_!': 1,
+    'nb_device::state::WaitingForRx::handle_event:overflow:Add': 1,
+    'nb_device::state::WaitingForRx::handle_event:overflow:Sub': 1,
+    'nb_device::state::WaitingForRxWindow::handle_event:overflow:Add': 3,
+    'nb_device::state::WaitingForRxWindow::handle_event:overflow:Sub': 1,
+    'nb_device::state::data_rxwindow1_timeout:overflow:Add': 1,
+    'radio::RadioBuffer::as_mut_for_read:slice:range index': 1,
+    'radio::RadioBuffer::as_ref_for_read:slice:range index': 1,
+    'radio::RadioBuffer::extend_from_slice:overflow:Add': 1,
+    'radio::TxConfig::adjust_power:overflow:Sub': 1,
+}
+
+# entry-point exclusions (still analysed in every calling context)
+ENTRY_EXCLUSIONS = [
+    (r'Uplink::add_mac_command$', 'pub(crate) generic helper: the MAC answer is built by handle_downlink_macs; analysed in that context, not with an arbitrary SerializableMacCommand'),
+]
+
+
+def delegated(o):
+    """sites of the codec crates that another check proves for *every* input under the type invariants: C03 for the
+    parse side of `lorawan`, C16 for lora_modulation. Builder-side sites of `lorawan` are judged here."""
+    from .c03 import BUILDER_PAT, ENTRY_EXCLUSIONS as C03_EXCL
+    fn = o.fn.lstrip('<')
+    if fn.startswith('lora_modulation::'):
+        return 'C16'
+    if fn.startswith('lorawan::') and not BUILDER_PAT.search(o.fn) and not any(re.search(pat, o.fn) for pat, _ in C03_EXCL):
+        return 'C03'
+    return None
+
+
 def classify_site(o):
+    from .c03 import EXCEPTIONS as C03_EXC
+    if (o.fn, o.kind, o.desc) in C03_EXC:
+        return 'reviewed', C03_EXC[(o.fn, o.kind, o.desc)]
     s = '%s:%s:%s' % (o.fn, o.kind, o.desc)
     for pat, cls, why in TABLE:
         if re.search(pat, s):
@@ -74,24 +151,273 @@ def short(fn):
     return fn.replace('lorawan_device::', '').replace('region::', '').replace('dynamic_channel_plans::', 'dyn::').replace('fixed_channel_plans::', 'fix::')
 
 
+# ---------------------------------------------------------------------------------------------------- flow rules
+D = 'lorawan_device::'
+# WHO-WRITES: every function that stores to one of these fields is listed with the reason why the store keeps the named
+# invariant; a writer that is not listed is a violation (it must be reviewed)
+WRITERS = {
+    ('mac::Configuration', 'data_rate'): {
+        'mac::Mac::new': ('construct', 'region default data rate (const-table rule)'),
+        'mac::session::Session::handle_downlink_macs': ('validated', 'LinkADRReq: commanded rate, region-defined, with the mask validated for it'),
+        'mac::session::Session::rx2_complete': ('validated', 'ADR back-off: next lower region-defined rate'),
+        'async_device::Device::set_datarate': ('application', 'application precondition'),
+        'nb_device::Device::set_datarate': ('application', 'application precondition'),
+    },
+    ('mac::Configuration', 'rx1_dr_offset'): {
+        'mac::Mac::new': ('construct', 'constant default'),
+        'mac::otaa::Otaa::handle_rx': ('guard', 'rx1_dr_offset_validate'),
+        'mac::session::Session::handle_downlink_macs': ('guard', 'rx1_dr_offset_validate'),
+    },
+    ('mac::Configuration', 'rx2_data_rate'): {
+        'mac::Mac::new': ('construct', 'None (region default is used)'),
+        'mac::otaa::Otaa::handle_rx': ('guard', 'get_datarate'),
+        'mac::session::Session::handle_downlink_macs': ('guard', 'get_datarate'),
+    },
+    ('mac::Configuration', 'rx1_delay'): {
+        'mac::Mac::new': ('construct', 'constant default'),
+        'mac::otaa::Otaa::handle_rx': ('value', 'del_to_delay_ms'),
+        'mac::session::Session::handle_downlink_macs': ('value', 'del_to_delay_ms'),
+    },
+}
+
+# non-iterator loops (exit not guaranteed by the iterator protocol) per function: the reviewed inventory
+LOOPS = {
+    '<region::dynamic_channel_plans::DynamicChannelPlan<R> as region::RegionHandler>::select_tx_channel':
+        (2, 'join: index < NUM_JOIN_CHANNELS (1..=3 of 4 draws: const rule); data: INV-DYN some channel < 16 is defined and enabled'),
+    '<region::fixed_channel_plans::FixedChannelPlan<F> as region::RegionHandler>::select_tx_channel':
+        (2, 'INV-FIX: an enabled channel exists in the bandwidth class of the current data rate'),
+    'region::fixed_channel_plans::join_channels::AvailableChannels::get_next_channel_inner':
+        (1, 'the bank of `next` has an enabled channel: get_next() resets an exhausted set before calling'),
+    'async_device::Device::rxc_listen::{closure#0}': (1, 'runs until a frame is accepted: driven by the radio (environment), cancellable future'),
+    'async_device::Device::between_windows::{closure#0}': (1, 'Class C: processes RXC frames until the window timer future fires (environment)'),
+}
+
+
+def cond_mentions_call(bf, cnd, suffix, depth=0):
+    """does the branch condition depend on the result of a call to `suffix` (directly, or through a local that was
+    assigned from it: `a && b` temporaries)?"""
+    t = cnd[0]
+
+    def has(x):
+        return term_contains(x, lambda y: isinstance(y, tuple) and len(y) >= 2 and y[0] == 'call' and isinstance(y[1], str) and y[1].endswith(suffix))
+    if has(t):
+        return True
+    if depth > 3:
+        return False
+    phis = []
+    term_contains(t, lambda y: phis.append(y[1]) if isinstance(y, tuple) and len(y) == 2 and y[0] == 'phi' else False)
+    for ph in phis:
+        for (v, cs, bb) in rules.defs_with_conditions(bf, ph):
+            if has(v) or any(cond_mentions_call(bf, c2, suffix, depth + 1) for c2 in cs):
+                return True
+    return False
+
+
+def guarded_by_call(bf, bb, suffix):
+    return any(cond_mentions_call(bf, c_, suffix) and not cond_false(c_) for c_ in path_conditions(bf, bb))
+
+
+def stores_through(prog, adt_suffix, field, crate='lorawan_device'):
+    """(body, bb, si, stmt) for every store whose place goes through field `field` of an ADT ending in adt_suffix
+    (element stores `self.channels[i] = ..` included)"""
+    out = []
+    for body in prog.bodies.values():
+        if body.crate != crate or body.stage == 'promoted':
+            continue
+        for b in body.blocks:
+            if b.cleanup:
+                continue
+            for si, st in enumerate(b.stmts):
+                if st.k == 'assign' and any(isinstance(p_, dict) and p_.get('n') == field and (p_.get('adt') or '').split('<')[0].endswith(adt_suffix) for p_ in st.lhs.proj):
+                    out.append((body, b.idx, si, st))
+    return out
+
+
+def iterator_driven(bf, blocks):
+    """the loop calls Iterator::next (or a Peekable/adapter next) and leaves the loop on its None edge"""
+    for bb in blocks:
+        t = bf.body.blocks[bb].term
+        if t.k != 'call' or not (callee_name(t) or '').endswith('::next') or t.target is None:
+            continue
+        d = t.dest.local
+        # the switch on discriminant(dest) somewhere in the loop with an edge out of the loop
+        for b2 in blocks:
+            t2 = bf.body.blocks[b2].term
+            if t2.k != 'switch':
+                continue
+            tm = term_of_operand(bf, t2.discr)
+            if tm[0] == 'discr' and term_contains(tm, lambda y: isinstance(y, tuple) and len(y) == 4 and y[0] == 'call' and y[3] == bb):
+                outs = [tg for _, tg in t2.targets] + [t2.otherwise]
+                if any(o is not None and o not in blocks for o in outs):
+                    return True
+    return False
+
+
+def await_loop(bf, blocks):
+    """the poll loop of one `.await`: poll -> Pending -> yield -> poll again; nothing else is called inside"""
+    has_yield = any(bf.body.blocks[b].term.k == 'yield' for b in blocks)
+    if not has_yield:
+        return False
+    for b in blocks:
+        t = bf.body.blocks[b].term
+        if t.k == 'call':
+            cn = t.callee() or ''
+            if not (cn.endswith('Future::poll') or cn.endswith('::new_unchecked') or cn.endswith('get_context') or cn.endswith('IntoFuture::into_future')):
+                return False
+    return True
+
+
+def flow_rules(c, res, an):
+    prog, pf = c.prog, c.pf
+    # ---- WHO-WRITES
+    for (adt, field), table in sorted(WRITERS.items()):
+        ws = pf.writers_of_field(adt, field, crates={'lorawan_device'})
+        seen = {}
+        for body, bb, si, st, kind in ws:
+            seen.setdefault(body.path[len(D):] if body.path.startswith(D) else body.path, []).append((body, bb, si, st, kind))
+        if len(seen) < 3:
+            raise CheckError('floor: writers of %s.%s found %d < 3' % (adt, field, len(seen)))
+        for fn, sites in sorted(seen.items()):
+            row = table.get(fn)
+            res.require(row is not None, 'C04:who-writes:%s.%s:%s' % (adt.split('::')[-1], field, fn),
+                        'unreviewed writer of %s.%s: the invariant that makes the unwrap/index/arith sites of this field safe is only checked for the listed writers' % (adt, field),
+                        '%s bb%d' % (fn, sites[0][1]), 'WHO-WRITES(%s.%s)' % (adt.split('::')[-1], field), instance='%s.%s written by reviewed writer %s' % (adt.split('::')[-1], field, fn))
+            if row is None:
+                continue
+            how, what = row
+            for body, bb, si, st, kind in sites:
+                if kind != 'store':
+                    continue
+                bf = pf.bf(body)
+                if how == 'guard':
+                    res.require(guarded_by_call(bf, bb, what), 'C04:%s:%s-store-unguarded' % (fn, field),
+                                'store to %s is not guarded by a successful %s' % (field, what), short_site(bf, bb, si), 'DOM(%s => store %s)' % (what, field),
+                                instance='%s: store to %s guarded by %s' % (fn, field, what))
+                elif how == 'value':
+                    v = term_of_operand(bf, st.rv.ops[0]) if st.rv.k == 'use' else None
+                    okv = v is not None and term_contains(v, lambda y: isinstance(y, tuple) and y[:1] == ('call',) and y[1].endswith(what)) and v[0] == 'call'
+                    res.require(okv, 'C04:%s:%s-value' % (fn, field), 'store to %s is not the result of %s: %s' % (field, what, term_str(v) if v else st.rv.k),
+                                short_site(bf, bb, si), 'PROVENANCE(%s)' % field, instance='%s: %s = %s(..)' % (fn, field, what))
+                elif how == 'validated':
+                    # region-defined: the stored rate passed get_datarate(..).is_some() (directly or inside next_lower_datarate)
+                    d_ok = guarded_by_call(bf, bb, 'get_datarate') or guarded_by_call(bf, bb, 'next_lower_datarate')
+                    res.require(d_ok, 'C04:%s:data_rate-store-undefined-rate' % fn, 'store to data_rate is not guarded by the region defining that rate',
+                                short_site(bf, bb, si), 'DOM(get_datarate(dr).is_some() => store data_rate)', instance='%s: data_rate store guarded by get_datarate' % fn)
+                    # usable: the (mask, data rate) pair was validated - the retry loops of select_tx_channel rely on it
+                    m_ok = guarded_by_call(bf, bb, 'channel_mask_validate')
+                    res.require(m_ok, 'C04:%s:data_rate-store-without-mask-validation' % fn,
+                                'data_rate is changed without channel_mask_validate(mask, new rate): on fixed plans the new rate can select a bandwidth class with no enabled channel '
+                                '(select_tx_channel then never returns)', short_site(bf, bb, si), 'VALIDATE-BEFORE-WRITE(data_rate)',
+                                instance='%s: data_rate store preceded by channel_mask_validate' % fn)
+    # next_lower_datarate only proposes region-defined rates
+    bf = c.bf(D + 'mac::session::next_lower_datarate')
+    n_some = 0
+    for b in bf.body.blocks:
+        if b.cleanup:
+            continue
+        for si, st in enumerate(b.stmts):
+            if st.k == 'assign' and st.lhs.local == 0 and not st.lhs.proj and st.rv.k == 'agg' and st.rv.d.get('variant') == 'Some':
+                n_some += 1
+                res.require(guarded_by_call(bf, b.idx, 'get_datarate'), 'C04:next_lower_datarate:candidate-not-checked',
+                            'a candidate rate is returned without get_datarate(candidate).is_some()', short_site(bf, b.idx, si), 'DOM(get_datarate => return Some)',
+                            instance='next_lower_datarate returns only region-defined rates')
+    if n_some < 1:
+        raise CheckError('anchor: next_lower_datarate has no `return Some(..)`')
+    # ---- VALIDATE-BEFORE-WRITE(mask): every installation of a channel mask
+    n_set = 0
+    for bf, bb, t in pf.callers_of('channel_mask_set', crates={'lorawan_device'}):
+        fn = bf.body.path[len(D):] if bf.body.path.startswith(D) else bf.body.path
+        if fn == 'region::Configuration::channel_mask_set':
+            continue   # dispatch wrapper
+        n_set += 1
+        res.require(guarded_by_call(bf, bb, 'channel_mask_validate'), 'C04:%s:channel_mask_set-without-validate' % short(fn),
+                    'a channel mask is installed without channel_mask_validate: a mask with no usable channel makes select_tx_channel spin forever',
+                    short_site(bf, bb), 'VALIDATE-BEFORE-WRITE(channel mask)', instance='%s: channel_mask_set after channel_mask_validate' % short(fn))
+    if n_set < 2:
+        raise CheckError('floor: channel_mask_set call sites %d < 2' % n_set)
+    # direct stores to the mask fields only in channel_mask_set / constructors
+    for adt in ('DynamicChannelPlan', 'FixedChannelPlan'):
+        for body, bb, si, st in stores_through(prog, adt, 'channel_mask'):
+            fn = body.path
+            okw = fn.endswith('::channel_mask_set')
+            res.require(okw, 'C04:who-writes:%s.channel_mask:%s' % (adt, short(fn)), 'channel mask written outside channel_mask_set', '%s bb%d' % (fn, bb),
+                        'WHO-WRITES(channel_mask)', instance='%s.channel_mask stored by channel_mask_set only' % adt)
+    # ---- CHANNEL-REMOVAL (dynamic plans): a channel may only disappear if a usable one provably remains
+    n_rm = 0
+    for body, bb, si, st in stores_through(prog, 'DynamicChannelPlan', 'channels'):
+        bf = pf.bf(body)
+        v = term_of_operand(bf, st.rv.ops[0]) if st.rv.k == 'use' else (('agg', 'core::option::Option::' + st.rv.d.get('variant', ''), ()) if st.rv.k == 'agg' else None)
+        if not (v is not None and v[0] == 'agg' and v[1].endswith('Option::None')):
+            continue
+        n_rm += 1
+        fn = short(body.path)
+        res.require(guarded_by_call(bf, bb, 'channel_mask_validate'), 'C04:%s:channel-removed-without-revalidation' % fn,
+                    'a channel is removed from the plan without checking that an enabled, defined channel remains (the data retry loop of select_tx_channel never ends otherwise)',
+                    short_site(bf, bb, si), 'VALIDATE-BEFORE-WRITE(channel removal)', instance='%s: removal re-validated' % fn)
+    for bf, bb, t in pf.callers_of('ChannelMask::set_channel', crates={'lorawan_device'}):
+        if 'DynamicChannelPlan' not in bf.body.path:
+            continue
+        a = term_of_operand(bf, t.args[2]) if len(t.args) > 2 else None
+        if a == ('const', 0):
+            n_rm += 1
+            # same site as the removal above when it is in the same block: reported once under the store's key
+    if n_rm < 2:
+        raise CheckError('floor: channel removal sites %d < 2' % n_rm)
+    # ---- LOOP inventory
+    found = {}
+    n_loops = 0
+    for fn in sorted(an.fn_contexts):
+        if not (fn.startswith(D) or fn.startswith('<' + D)):
+            continue
+        bl = prog.by_short.get(fn) or []
+        if len(bl) != 1:
+            continue
+        bf = pf.bf(bl[0])
+        non_iter = 0
+        for h, blocks in bf.cfg.natural_loops().items():
+            n_loops += 1
+            if await_loop(bf, blocks):
+                continue
+            if not iterator_driven(bf, blocks):
+                non_iter += 1
+        if non_iter:
+            found[fn.replace(D, '')] = non_iter
+    if n_loops < 15:
+        raise CheckError('floor: loops in analysed device functions %d < 15' % n_loops)
+    for fn, n in sorted(found.items()):
+        row = LOOPS.get(fn)
+        res.require(row is not None and n <= row[0], 'C04:loop:%s' % short(fn),
+                    '%d loop(s) whose exit is not given by an iterator in %s (%s reviewed): termination must be argued and listed' % (n, fn, row[0] if row else 0),
+                    fn, 'LOOP-INVENTORY', instance='%s: %d non-iterator loop(s): %s' % (short(fn), n, row[1] if row else ''))
+    res.coverage['non_iterator_loops'] = found
+    return found
+
+
 def run(tier):
     res = Result(PID)
     c = ctx('ws')
     prog = c.prog
-    ents = [b for p, bs in sorted(prog.by_short.items()) for b in bs if ENTRY_PAT.search(p) and b.stage != 'promoted' and not b.coroutine and '{closure' not in p]
+    ents = [b for p, bs in sorted(prog.by_short.items()) for b in bs if ENTRY_PAT.search(p) and b.stage != 'promoted' and not b.coroutine and '{closure' not in p
+            and not any(re.search(pat, p) for pat, _ in ENTRY_EXCLUSIONS)]
     if len(ents) < 70:
         raise CheckError('floor: device entry points %d < 70' % len(ents))
     log = []
-    an, inv, skipped = absint_run.run_passes(prog, ents, {'lorawan_device', 'lorawan', 'lora_modulation'}, max_depth=7 if tier == 'thorough' else 6, log=log.append)
+    an, inv, skipped = absint_run.run_passes(prog, ents, {'lorawan_device', 'lorawan', 'lora_modulation'}, max_depth=7 if tier == 'thorough' else 6, log=log.append, subsume=True, jobs=16,
+                                             setup=lambda a: a.boundary_traits.update(BOUNDARY))
     obl = an.finalize_obligations()
     n_ok = 0
     classes = {}
-    used = set()
+    deleg = {}
+    per_group = {}
     for o in sorted(obl, key=lambda o: o.key()):
         if not o.bad:
             n_ok += 1
+            res.ok('OBLIGATION(%s)' % o.kind, '%s discharged in %d context(s)' % (o.key(), o.ok))
             continue
         cls, why = classify_site(o)
+        if cls is None and delegated(o):
+            deleg.setdefault(delegated(o), []).append(o.key())
+            continue
         if cls is None:
             key = 'C04:%s:%s:%s#%d' % (short(o.fn), o.kind, o.desc, o.ord)
             res.violation(key, 'panic-capable site reachable from the device entry points is neither discharged nor classified: %s (%s) context %s' % (
@@ -99,12 +425,22 @@ def run(tier):
                 '%s (%s)' % (o.fn, o.span), 'OBLIGATION(%s)' % o.kind, o.detail)
         else:
             classes.setdefault(cls, []).append({'site': o.key(), 'reason': why})
-    if len(obl) < 400:
-        raise CheckError('floor: obligations %d < 400' % len(obl))
-    res.coverage.update({'obligations': len(obl), 'discharged': n_ok, 'classified_sites': {k: len(v) for k, v in classes.items()}, 'classified': classes,
+            grp = '%s:%s:%s' % (short(o.fn), o.kind, o.desc)
+            per_group[grp] = per_group.get(grp, 0) + 1
+    # a classified group may not grow: a *new* undischarged site of the same kind in the same function is a violation
+    for grp, n in sorted(per_group.items()):
+        lim = GROUP_LIMITS.get(grp)
+        res.require(lim is not None and n <= lim, 'C04:%s:new-undischarged-site' % grp,
+                    '%d undischarged sites in this group, %s reviewed: a new panic-capable site appeared that the classification was not written for' % (n, lim),
+                    grp, 'OBLIGATION(group ceiling)', instance='%s: %d undischarged site(s), all reviewed' % (grp, n))
+    res.coverage['undischarged_per_group'] = per_group
+    if len(obl) < 350:
+        raise CheckError('floor: obligations %d < 350' % len(obl))
+    res.coverage.update({'obligations': len(obl), 'discharged': n_ok, 'classified_sites': {k: len(v) for k, v in classes.items()}, 'classified': classes, 'delegated_sites': deleg,
                          'entries': len(ents), 'passes': log, 'class_hierarchy_joins': an.cha_log,
                          'loops_analysed': sum(len(v) for v in an.loops.values()),
                          'unmodelled_external_calls': dict(sorted(an.havoc_log.items(), key=lambda x: -x[1])[:20]), 'configs': [c.info]})
+    flow_rules(c, res, an)
     res.samples = [{'obligation': o.key(), 'contexts_discharged': o.ok} for o in obl[:5]]
     res.explanation = __doc__
     res.assumptions = ['classified sites are assumptions of the stated class (see coverage.classified); invariants are checked by flow rules where stated',
